@@ -24,7 +24,11 @@ class Variant:
             http = httpx.AsyncClient(transport=transport, headers=client_headers)
         else:
             http = httpx.Client(transport=transport, headers=client_headers)
-        if self.tracer:
+        if self.tracer == "rec":
+            from .rec_tracer import RecTracer
+
+            kw["tracer"] = RecTracer()
+        elif self.tracer:
             kw["tracer"] = _tracer()
         return self.cls(url=URL, http_client=http, **kw)
 
@@ -54,6 +58,11 @@ def variants() -> list[Variant]:
         ]
     except ImportError:
         pass
+    # a tracer whose spans actually record (is_recording() is True), as an SDK tracer's would
+    vs += [
+        Variant("sync-otel+recording", "base_client_open_telemetry", "BaseClientOpenTelemetry", False, "rec"),
+        Variant("async-otel+recording", "async_base_client_open_telemetry", "AsyncBaseClientOpenTelemetry", True, "rec"),
+    ]
     # all must come from the tree under check
     root = os.path.realpath(repo_root())
     for v in vs:
